@@ -18,6 +18,7 @@ def run(ctx):
             s = readcheck.ReadSession(fi)
             try:
                 ops = readcheck.out_of_range_ops(rng, fi, 2 if ctx.quick else 5) + readcheck.in_range_ops(rng, fi, 1)
+                ops += [('hdr', int(t)) for t in rng.integers(0, fi.tracecount, size=2)]
                 readcheck.check_ops(ctx, model, s, ops, props=('C14', 'C02'))
             finally:
                 s.close()
